@@ -41,7 +41,7 @@ pub struct Entry {
 impl Entry {
     /// Returns the range of tile ids this entry is valid for.
     pub const fn tile_id_range(&self) -> Range<u64> {
-        self.tile_id..self.tile_id + self.run_length as u64
+        self.tile_id..self.tile_id.saturating_add(self.run_length as u64)
     }
 
     /// Returns `true` if this entry is for a leaf directory and
